@@ -389,6 +389,7 @@ for e in from_nfa.edits:
     pat = getattr(e, 'pattern', None)
     if isinstance(e, Ins) and e.where == 'body_start':
         mp_edits.append(Ins('body_start', None, """
+hide(mp_wf); hide(sub_wf);
 broadcast use axiom_fx_valid, axiom_set_key_model, axiom_triple_key_model, axiom_stateid_cmp;
 let ghost m = mp_nfa;
 let ghost g = g_mp(mp_nfa);
@@ -461,11 +462,11 @@ proof {
         lemma_mp_target_nonzero(m, s, cc, target_state);
     }
     assert(owner(m, target_state.0 as int, own));
-    assert forall|jj: int| 0 <= jj < mp_len(m) implies (contains_id(#[trigger] m.nfas@[jj], target_state) <==> owner(m, target_state.0 as int, jj)) by { lemma_contains_id(m.nfas@[jj], target_state); }
+    lemma_mp_owner_find(m, target_state, own);
     match __fn {
         Some(f) => {
             let i = choose|i: int| 0 <= i < m.nfas@.len() && *f == #[trigger] m.nfas@[i] && contains_id(*f, target_state);
-            lemma_owner_unique(m, target_state.0 as int, i, own);
+            assert(i == own);
         }
         None => { assert(!contains_id(m.nfas@[own], target_state)); }
     }
